@@ -62,7 +62,8 @@ class GenElab:
             elif rng.random() < self.misuse * 4:
                 out.append(["invalid", rng.choice(["error_not_exception_class", "error_wrong_type", "error_callable_object",
                                                    "error_builtin", "error_callable_object_ensure",
-                                                   "snapshot_no_args_no_name", "snapshot_many_args_no_name"]), en])
+                                                   "snapshot_no_args_no_name", "snapshot_many_args_no_name",
+                                                   "snapshot_default_args_no_name"]), en])
         return out
 
     def sig(self, kind):
@@ -71,9 +72,20 @@ class GenElab:
         if kind == "set":
             return {"posonly": [], "poskw": [{"name": "value", "default": None}], "varpos": None, "kwonly": [], "varkw": None}
         ps = [{"name": "x", "default": None}] if self.rng.random() < 0.5 else []
+        sig = {"posonly": [], "poskw": ps, "varpos": None, "kwonly": [], "varkw": None}
         if self.rng.random() < self.misuse:
-            ps.append({"name": self.rng.choice(["_ARGS", "_KWARGS"]), "default": None})
-        return {"posonly": [], "poskw": ps, "varpos": None, "kwonly": [], "varkw": None}
+            # a parameter with a reserved name, of any kind
+            name = self.rng.choice(["_ARGS", "_KWARGS"])
+            where = self.rng.choice(["poskw", "poskw", "kwonly", "kwonly-default", "varkw", "varpos"])
+            if where == "poskw":
+                ps.append({"name": name, "default": None})
+            elif where == "kwonly":
+                sig["kwonly"] = [{"name": name, "default": None}]
+            elif where == "kwonly-default":
+                sig["kwonly"] = [{"name": name, "default": ["o", 110]}]
+            else:
+                sig[where] = name
+        return sig
 
     def member(self, name, kind, allow_pre=True, snap_pool=None):
         m = {"name": name, "kind": kind, "async": False, "sig": self.sig(kind),
@@ -194,7 +206,7 @@ class GenElab:
         fn = lambda name, kind, decos: self._with(self.member(name, kind), decos)   # noqa: E731
         shape = rng.choice(["prop-missing-accessor", "prop-accessor-of-other-base", "inherited-static", "diamond-posts",
                             "invariant-events", "special-of-second-base", "late-decoration", "callable-object-on-base",
-                            "plain-mixin"])
+                            "plain-mixin", "snapshot-misuse"])
         order = rng.choice([[0, 1], [1, 0]])
         if shape == "prop-missing-accessor":
             # one base shows the property without the accessor, the other one with it and with contracts
@@ -232,6 +244,13 @@ class GenElab:
             ops = [self._cls([], [fn("f", "plain", rng.choice([[req()], [req(), ens()], [ens()]]) + [["foreign", self.fk, "obj"]])]),
                    self._cls([0], [fn("f", "plain", rng.choice([[], [req()], [ens()]]))]),
                    self._cls(rng.choice([[0], [1]]), [fn("f", "plain", rng.choice([[], [ens()]]))])]
+        elif shape == "snapshot-misuse":
+            # an unnamed snapshot with several parameters above a postcondition: the only reason to reject the definition
+            bad = ["invalid", rng.choice(["snapshot_default_args_no_name", "snapshot_many_args_no_name",
+                                          "snapshot_no_args_no_name"]), True]
+            ops = [{"op": "func", "name": "fn0", "async": rng.random() < 0.3, "kind": "plain", "sig": self.sig("plain"),
+                    "decos": [ens(), bad]},
+                   self._cls([], [fn("f", "plain", [ens(), bad])])]
         elif shape == "plain-mixin":
             # an ordinary class (no meta-class) with contracts as root or mix-in of a hierarchy on the DBC base
             kind = rng.choice(["plain", "plain", "static", "classm"])
@@ -295,6 +314,9 @@ def py_deco(d, lines, ind):
             return "@icontract.snapshot(lambda: 1%s)" % en
         if k == "snapshot_many_args_no_name":
             return "@icontract.snapshot(lambda a, b: 1%s)" % en
+        if k == "snapshot_default_args_no_name":
+            # several parameters, all but one with a default value: still several arguments, still no name
+            return "@icontract.snapshot(lambda a, b=2, c=3: 1%s)" % en
     raise ValueError(d)
 
 
@@ -403,6 +425,7 @@ MK = {"plain": "MPlain", "static": "MStatic", "classm": "MClassM", "get": "MGet"
 INVALID_EXN = {"error_not_exception_class": "ValueError", "error_wrong_type": "ValueError",
                "error_callable_object": "ValueError", "error_callable_object_ensure": "ValueError", "error_builtin": "ValueError",
                "snapshot_no_args_no_name": "ValueError", "snapshot_many_args_no_name": "ValueError",
+               "snapshot_default_args_no_name": "ValueError",
                "invariant_with_params": "ValueError", "invariant_coroutine": "ValueError"}
 
 
